@@ -42,7 +42,7 @@ fn show(r: Result<N, String>) -> String {
     }
 }
 
-pub fn run() {
+pub fn run(_args: &[String]) {
     each_line(|line| {
         let p: Vec<&str> = line.split_whitespace().collect();
         let (op, a, b) = (p[0], parse(p[1], p[2]), parse(p[3], p[4]));
